@@ -3,7 +3,7 @@
    or CodeGen/UniqueP.v, or a computed witness. *)
 From Coq Require Import List NArith ZArith Bool Lia.
 From PB Require Import Base.PBytes CodeGen.NamesModel CodeGen.NamesP CodeGen.UniqueModel CodeGen.UniqueP CodeGen.OpaqueModel.
-From PB Require Import Base.GoInt Gen.StrsGo CodeGen.StrsGoP.
+From PB Require Import Base.GoInt Gen.StrsGo CodeGen.StrsGoBase CodeGen.StrsTrimModel CodeGen.StrsGoP.
 Import ListNotations.
 Open Scope N_scope.
 
@@ -229,3 +229,21 @@ Example C42_go_nonvacuous :
   go_JSONCamelCase (zb [ "a"; "_"; "b"; "_"; "_"; "1" ]%byte) = Val (zb [ "a"; "B"; "1" ]%byte) /\
   go_JSONSnakeCase (zb [ "a"; "B"; "c" ]%byte) = Val (zb [ "a"; "_"; "b"; "c" ]%byte).
 Proof. unfold go_len_ok. repeat split; reflexivity. Qed.
+
+(* strs.TrimEnumPrefix as translated (loop with `continue`; unicode.ToLower(rune(byte)) and
+   strings.TrimLeft(s, "_") enter through the hand-written CodeGen/StrsGoBase.v, compared with
+   the library on every run): equals the hand model on all strings, never panics, returns a
+   suffix of the value name, and never the empty string for a non-empty name *)
+Theorem C42_go_TrimEnumPrefix_eq_model :
+  forall s prefix, go_TrimEnumPrefix (zb s) (zb prefix) = Val (zb (trim_enum_prefix s prefix)).
+Proof. exact go_TrimEnumPrefix_eq. Qed.
+Print Assumptions C42_go_TrimEnumPrefix_eq_model.
+Theorem C42_go_TrimEnumPrefix_suffix_nonempty :
+  forall s prefix, exists p o, go_TrimEnumPrefix (zb s) (zb prefix) = Val (zb o) /\ s = p ++ o /\ (s <> [] -> o <> []).
+Proof. exact go_TrimEnumPrefix_suffix_nonempty. Qed.
+Print Assumptions C42_go_TrimEnumPrefix_suffix_nonempty.
+Example C42_go_trim_nonvacuous :
+  go_TrimEnumPrefix (zb [ "F"; "O"; "O"; "_"; "B"; "A"; "R" ]%byte) (zb [ "f"; "o"; "o" ]%byte) = Val (zb [ "B"; "A"; "R" ]%byte) /\
+  go_TrimEnumPrefix (zb [ "F"; "O"; "O"; "_" ]%byte) (zb [ "f"; "o"; "o" ]%byte) = Val (zb [ "F"; "O"; "O"; "_" ]%byte) /\
+  go_TrimEnumPrefix (zb [ "F"; "_"; "O"; "x" ]%byte) (zb [ "f"; "o"; "o" ]%byte) = Val (zb [ "F"; "_"; "O"; "x" ]%byte).
+Proof. repeat split; reflexivity. Qed.
